@@ -1,6 +1,6 @@
 #!/bin/sh
 # run every claimed quick check once; summary lines only
-cd /verif
+cd "$(dirname "$0")/.."
 for p in $(python3 -c "import json;print(' '.join(c['property_id'] for c in json.load(open('MANIFEST.json'))['checks']))"); do
   /usr/bin/time -f "$p wall=%es" ./check $p --tier ${1:-quick} 2>&1 | grep -E "^(C[0-9]+:|VIOLATION|KNOWN|INCONCLUSIVE|ERROR|UNDECIDED|VACUOUS|C[0-9]+ wall)" | cut -c1-300
 done
